@@ -82,40 +82,66 @@ def _label_ok(tok, lab, name, add_prefix):
 
 # ---- one case --------------------------------------------------------------------------------------
 
-def _call(c, fn, co, tc, oc, right, name, add_prefix):
-    kw = {'name': name, 'add_prefix': add_prefix}
+def _kwargs(right, name, add_prefix, style, with_right):
+    """keyword arguments of a call; style 'default-kwargs': arguments equal to the documented default are OMITTED."""
+    kw = {}
+    omit = 'default-kwargs' in style
+    if with_right and not (omit and right is False):
+        kw['right_connect'] = right
+    if not (omit and name == ''):
+        kw['name'] = name
+    if not (omit and add_prefix is True):
+        kw['add_prefix'] = add_prefix
+    return kw
+
+
+def _call(c, fn, co, tc, oc, right, name, add_prefix, style=()):
+    seq = tuple if 'tuple-connectors' in style else list
+    kw = _kwargs(right, name, add_prefix, style, fn in ('connect_circuit', 'extend_circuit', 'extend_circuit-explicit',
+                                                        'extend_circuit-explicit-this', 'extend_circuit-explicit-other'))
     if fn == 'connect_circuit':
-        return c.connect_circuit(co, list(tc), list(oc), right_connect=right, **kw)
+        return c.connect_circuit(co, seq(tc), seq(oc), **kw)
     if fn == 'extend_circuit-explicit':
-        return c.extend_circuit(co, this_connectors=list(tc), other_connectors=list(oc), right_connect=right, **kw)
+        return c.extend_circuit(co, this_connectors=seq(tc), other_connectors=seq(oc), **kw)
+    if fn == 'extend_circuit-explicit-this':       # other_connectors left to its default
+        return c.extend_circuit(co, this_connectors=seq(tc), **kw)
+    if fn == 'extend_circuit-explicit-other':      # this_connectors left to its default
+        return c.extend_circuit(co, other_connectors=seq(oc), **kw)
     if fn == 'connect_left':
-        return c.connect_left(co, list(tc), **kw)
+        return c.connect_left(co, seq(tc), **kw)
     if fn == 'connect_right':
-        return c.connect_right(co, list(oc), **kw)
+        return c.connect_right(co, seq(oc), **kw)
     if fn == 'connect_inputs':
         return c.connect_inputs(co, **kw)
     if fn == 'extend_circuit':
-        return c.extend_circuit(co, right_connect=right, **kw)
+        return c.extend_circuit(co, **kw)
     if fn == 'add_circuit':
         return c.add_circuit(co, **kw)
     raise ValueError(fn)
 
 
-def _call_text(fn, tc, oc, right, name, add_prefix):
-    kw = f'name={name!r}, add_prefix={add_prefix}'
+def _call_text(fn, tc, oc, right, name, add_prefix, style=()):
+    seq = tuple if 'tuple-connectors' in style else list
+    with_right = fn in ('connect_circuit', 'extend_circuit', 'extend_circuit-explicit', 'extend_circuit-explicit-this', 'extend_circuit-explicit-other')
+    kw = ', '.join(f'{k}={v!r}' for k, v in _kwargs(right, name, add_prefix, style, with_right).items())
+    kw = (', ' + kw) if kw else ''
     return {
-        'connect_circuit': f'base.connect_circuit(other, {list(tc)}, {list(oc)}, right_connect={right}, {kw})',
-        'extend_circuit-explicit': f'base.extend_circuit(other, this_connectors={list(tc)}, other_connectors={list(oc)}, right_connect={right}, {kw})',
-        'connect_left': f'base.connect_left(other, {list(tc)}, {kw})',
-        'connect_right': f'base.connect_right(other, {list(oc)}, {kw})',
-        'connect_inputs': f'base.connect_inputs(other, {kw})',
-        'extend_circuit': f'base.extend_circuit(other, right_connect={right}, {kw})',
-        'add_circuit': f'base.add_circuit(other, {kw})',
+        'connect_circuit': f'base.connect_circuit(other, {seq(tc)!r}, {seq(oc)!r}{kw})',
+        'extend_circuit-explicit': f'base.extend_circuit(other, this_connectors={seq(tc)!r}, other_connectors={seq(oc)!r}{kw})',
+        'extend_circuit-explicit-this': f'base.extend_circuit(other, this_connectors={seq(tc)!r}{kw})',
+        'extend_circuit-explicit-other': f'base.extend_circuit(other, other_connectors={seq(oc)!r}{kw})',
+        'connect_left': f'base.connect_left(other, {seq(tc)!r}{kw})',
+        'connect_right': f'base.connect_right(other, {seq(oc)!r}{kw})',
+        'connect_inputs': f'base.connect_inputs(other{kw})',
+        'extend_circuit': f'base.extend_circuit(other{kw})',
+        'add_circuit': f'base.add_circuit(other{kw})',
     }[fn]
 
 
-def check_case(base, other, fn, tc, oc, right, name, add_prefix, col, deep=True):
-    """returns True if the case was executed (valid, unambiguous arguments)"""
+def check_case(base, other, fn, tc, oc, right, name, add_prefix, col, deep=True, style=()):
+    """returns True if the case was executed (valid, unambiguous arguments).
+    (tc, oc) are the connector lists the call MEANS (for the wrappers: after filling in the documented defaults); `style`
+    says how it is written: 'tuple-connectors', 'default-kwargs' (arguments equal to their default omitted)."""
     ex = Expect(base, other, tc, oc, right)
     if not ex.valid or ex.ambiguous or not ex.new_labels_ok(name, add_prefix):
         return False
@@ -142,10 +168,21 @@ def check_case(base, other, fn, tc, oc, right, name, add_prefix, col, deep=True)
     if set(base.gates) & set(other.gates):
         feats.add('shared-labels')
     if fn not in ('connect_circuit',):
-        feats.add(fn)
+        feats.add('extend_circuit-explicit' if fn.startswith('extend_circuit-explicit') else fn)
+    if fn in ('extend_circuit-explicit-this', 'extend_circuit-explicit-other'):
+        feats.add('one-connector-list-defaulted')
+    # a connector list that is written out although it is empty (where leaving it out would mean something else)
+    if (fn == 'extend_circuit-explicit' and not tc and not oc) or (fn == 'extend_circuit-explicit-this' and not tc) or \
+            (fn == 'extend_circuit-explicit-other' and not oc):
+        feats.add('explicit-empty-connectors')
+    if not name and not add_prefix:
+        feats.add('empty-name-no-prefix')
+    feats.update(style)
+    if not base.gates or not other.gates:
+        feats.add('empty-circuit')
     side = 'side-by-side' if not tc else ('right' if right else 'left')
     size = len(base.gates) + len(other.gates) + len(tc) + len(feats)
-    rp = {'kind': 'bounded', 'base': base.to_json(), 'other': other.to_json(), 'call': _call_text(fn, tc, oc, right, name, add_prefix),
+    rp = {'kind': 'bounded', 'base': base.to_json(), 'other': other.to_json(), 'call': _call_text(fn, tc, oc, right, name, add_prefix, style),
           'this_connectors': list(tc), 'other_connectors': list(oc), 'right_connect': right}
 
     def fail(clause, detail, extra=None):
@@ -154,7 +191,7 @@ def check_case(base, other, fn, tc, oc, right, name, add_prefix, col, deep=True)
     c, co = N.build(base), N.build(other)
     pre_other = N.snapshot(co)
     try:
-        _call(c, fn, co, tc, oc, right, name, add_prefix)
+        _call(c, fn, co, tc, oc, right, name, add_prefix, style)
     except Exception as e:
         fail('returns-normally', K.exc_str(e))
         return True
@@ -302,6 +339,47 @@ def cases_for(base, other, full):
 
 
 OPTS = (('', True), ('B', True), ('B', False))
+OPTS4 = OPTS + (('', False),)
+
+
+def corner_pool():
+    """circuits for the 'explicit empty / falsy argument' corners: every interface width 0..2 on both sides, so that for each
+    wrapper there are pairs on which the DEFAULT connection is possible (a wrapper that falls back to its default when it
+    is handed an empty list then returns normally - with the wrong circuit) and pairs whose documented default is empty."""
+    return [
+        K.mk([], [], []),                                                                             # 0 -> 0, no gate at all
+        K.mk([], [('g0', 'ALWAYS_TRUE', []), ('g1', 'NOT', ['g0'])], ['g1']),                         # 0 -> 1
+        K.mk(['x0', 'x1'], [('g0', 'AND', ['x0', 'x1'])], []),                                        # 2 -> 0
+        K.mk(['x0'], [('g0', 'NOT', ['x0'])], ['g0']),                                                # 1 -> 1
+        K.mk(['x0'], [], ['x0']),                                                                     # 1 -> 1, output is the input
+        K.mk(['x0', 'x1'], [('g0', 'GT', ['x0', 'x1'])], ['g0']),                                     # 2 -> 1
+        K.mk(['x0'], [('g0', 'NOT', ['x0'])], ['g0', 'x0']),                                          # 1 -> 2
+        K.mk(['x0', 'x1'], [('g0', 'XOR', ['x0', 'x1']), ('g1', 'GT', ['x0', 'g0'])], ['g1', 'g0']),  # 2 -> 2
+        K.mk(['x0', 'x1'], [('g0', 'GT', ['x0', 'x1']), ('g1', 'NOT', ['g0'])], ['g1', 'x0']),        # 2 -> 2 (first fixed base)
+    ]
+
+
+def corner_cases(base, other):
+    """(fn, tc, oc, right, styles) for one pair: calls in which a connector list is EMPTY BUT WRITTEN OUT, or an optional
+    argument is falsy / left out.  (tc, oc) is what the documentation says the call means."""
+    lists = ((), ('tuple-connectors',))
+    for right in (False, True):
+        # extend_circuit(other, this_connectors=[], other_connectors=[]) == connect_circuit(other, [], []) == add_circuit(other)
+        yield 'extend_circuit-explicit', (), (), right, lists
+        yield 'connect_circuit', (), (), right, lists
+        # only one list written out (empty); the other one keeps its documented default
+        d_this = tuple(base.inputs if right else base.outputs)
+        d_other = tuple(other.outputs if right else other.inputs)
+        yield 'extend_circuit-explicit-this', (), d_other, right, lists
+        yield 'extend_circuit-explicit-other', d_this, (), right, lists
+        # both left out: the documented full-interface connection (may be empty on both sides)
+        yield 'extend_circuit', d_this, d_other, right, ((),)
+        # written out and equal to the default
+        yield 'extend_circuit-explicit', d_this, d_other, right, lists
+    yield 'connect_left', (), tuple(other.inputs), False, lists                      # valid iff other has no inputs
+    yield 'connect_right', tuple(base.inputs), (), True, lists                      # valid iff base has no inputs
+    yield 'connect_inputs', tuple(base.inputs), tuple(other.inputs), True, ((),)
+    yield 'add_circuit', (), (), False, ((),)
 
 
 def _worker(task):
@@ -310,13 +388,13 @@ def _worker(task):
     cases, keys, samples = 0, set(), []
     kind = task[0]
 
-    def one(base, other, fn, tc, oc, right, name, ap, deep=True):
+    def one(base, other, fn, tc, oc, right, name, ap, deep=True, style=()):
         nonlocal cases
-        if check_case(base, other, fn, tuple(tc), tuple(oc), right, name, ap, col, deep):
+        if check_case(base, other, fn, tuple(tc), tuple(oc), right, name, ap, col, deep, style):
             cases += 1
-            keys.add(hash((base.key(), other.key(), fn, tuple(tc), tuple(oc), right, name, ap)))
-            if len(samples) < 2 and tc and len(other.gates) > len(other.inputs):
-                samples.append({'base': base.to_json(), 'other': other.to_json(), 'call': _call_text(fn, tc, oc, right, name, ap)})
+            keys.add(hash((base.key(), other.key(), fn, tuple(tc), tuple(oc), right, name, ap) + ((tuple(style),) if style else ())))
+            if len(samples) < 2 and (tc or kind == 'corners') and len(other.gates) > len(other.inputs):
+                samples.append({'base': base.to_json(), 'other': other.to_json(), 'call': _call_text(fn, tc, oc, right, name, ap, style)})
 
     if kind == 'pairs':
         _, k_max, n_base, n_other, part, parts, full = task
@@ -341,6 +419,35 @@ def _worker(task):
                             if shared and not (name and ap) and fn != 'connect_circuit':
                                 continue
                             one(b, o, fn, tc, oc, right, name, ap, deep=(not name) or shared)
+    elif kind == 'corners':
+        # explicit-empty / falsy-argument corners of the wrappers (quick and thorough)
+        _, stride = task
+        pool = corner_pool()
+        for b in pool:
+            for o0 in pool:
+                for shared in (False, True):
+                    o = _as_other(o0, shared)
+                    for fn, tc, oc, right, styles in corner_cases(b, o):
+                        for st in styles:
+                            for name, ap in OPTS4:
+                                if shared and not (name and ap):
+                                    continue                         # equal labels need the prefix
+                                one(b, o, fn, tc, oc, right, name, ap, deep=not name, style=st)
+                                if (name, ap) == ('', True):
+                                    one(b, o, fn, tc, oc, right, name, ap, deep=False, style=st + ('default-kwargs',))
+        # the ordinary connector choices written with tuples / with defaults left out / with name='' and add_prefix=False
+        fixed, _en = base_pool(0)
+        variants = ((('tuple-connectors',), 'B', True), (('default-kwargs',), '', True), ((), '', False), (('tuple-connectors', 'default-kwargs'), 'B', False))
+        idx = 0
+        for b in fixed + pool[3:]:
+            for o0 in fixed + pool[3:]:
+                o = _as_other(o0, False)
+                for fn, tc, oc, right in cases_for(b, o, False):
+                    idx += 1
+                    if idx % stride:
+                        continue
+                    st, name, ap = variants[(idx // stride) % len(variants)]
+                    one(b, o, fn, tc, oc, right, name, ap, deep=False, style=st)
     else:
         _, count, part = task[:3]
         budget = K.Budget(task[3]) if len(task) > 3 else None
@@ -384,8 +491,10 @@ def run_bounded(rep, quick):
     tasks = []
     if quick:
         tasks.append(('pairs', 1, 5, 4, 0, 1, False))
+        tasks.append(('corners', 7))
         tasks.append(('random', 500, 0, 5.0))
     else:
+        tasks.append(('corners', 1))
         tasks += [('pairs', 2, 30, 30, p, 64, True) for p in range(64)]
         tasks += [('random', 1250, p) for p in range(16)]
     col = K.Collector()
